@@ -561,8 +561,9 @@ def handleWithContext (cfg : Cfg) (tr : Transport) (now : Nat) (r0 : Reader.Read
                 pure true) s
   | _, _, _, _, _ => (.panic, s)
 
-/-- the MAC of the response TSIG (`sign_response` in `finish_with_mac`) -/
-def macFn (ts : Writer.Tsig) (message : List UInt8) : List UInt8 :=
+/-- the MAC of the response TSIG (`sign_response` in `finish_with_mac`); `hm` = the MAC primitive -/
+def macFnWith (hm : Tsig.Algorithm → Tsig.Octets → Tsig.Octets → Tsig.Octets) (ts : Writer.Tsig)
+    (message : List UInt8) : List UInt8 :=
   match ts.mode with
   | .response alg requestMac key =>
     let a : Hmac.Alg := match alg with | .hmacSha1 => .HmacSha1 | .hmacSha256 => .HmacSha256
@@ -570,10 +571,13 @@ def macFn (ts : Writer.Tsig) (message : List UInt8) : List UInt8 :=
       { keyName := ts.rr.keyName.wire, timeSigned := Tsig.TimeSigned.ofList ts.rr.timeSigned,
         fudge := UInt16.ofNat ts.rr.fudge, originalId := UInt16.ofNat ts.rr.originalId,
         error := UInt16.ofNat ts.rr.error, serverTime := Tsig.TimeSigned.ofList ts.rr.serverTime }
-    match (Tsig.signResponse (ε := Unit) Tsig.realHmac prep message requestMac a key) with
+    match (Tsig.signResponse (ε := Unit) hm prep message requestMac a key) with
     | .ok (_, mac) => mac
     | _ => []
   | _ => []
+
+/-- `macFnWith` with the real HMAC -/
+def macFn (ts : Writer.Tsig) (message : List UInt8) : List UInt8 := macFnWith Tsig.realHmac ts message
 
 /-- `Server::handle_message` (RRL disabled). `bufLen` = `response_buf.len()`. -/
 def handleMessage (cfg : Cfg) (tr : Transport) (now : Nat) (bufLen : Nat) (req : Bytes) : Out Unit (Option Bytes) :=
